@@ -24,14 +24,16 @@ class Obl:
         return "%s|%s|%s" % (self.body.key, self.kind, self.shape)
 
 
-def shape(t, body, depth=0):
-    """Rename-invariant rendering: parameters by position, upvars/phis by type."""
+def shape(t, body, depth=0, limit=14):
+    """Rename-invariant rendering: parameters by position, upvars/phis by type.
+    Below `limit` levels the term is elided as `_` (table keys use a small limit so
+    that edits far upstream of an operand do not change the key)."""
     if not isinstance(t, tuple) or not t:
         return repr(t)
-    if depth > 14:
-        return "..."
+    if depth > limit:
+        return "_"
     tag = t[0]
-    S = lambda x: shape(x, body, depth + 1)
+    S = lambda x: shape(x, body, depth + 1, limit)
     if tag == "param":
         return "$%d" % t[1]
     if tag == "upvar":
@@ -277,11 +279,39 @@ def cut_describe(prog, o):
     return o.what
 
 
+KEY_DEPTH = 2
+
+
+def _atoms_key(t, body):
+    """Commutation/association/let-invariant key of an arithmetic term: the sorted set of
+    (depth-limited) shapes of the atoms of its polynomial normal form, plus 'k' if it has a
+    non-zero constant part."""
+    from ..poly import poly
+    p = poly(t)
+    parts = sorted({shape(a, body, 0, KEY_DEPTH) for a in p.atoms()})
+    if p.m.get((), 0) != 0:
+        parts.append("k")
+    return "{" + " ".join(parts) + "}"
+
+
+def _arg_key(t, body):
+    if not isinstance(t, tuple) or not t:
+        return repr(t)
+    if t[0] == "adt" and t[1].split("::")[-1] in ("Range", "RangeFrom", "RangeTo", "RangeInclusive"):
+        return "%s{%s}" % (t[1].split("::")[-1], ",".join("%s:%s" % (n, _atoms_key(v, body)) for n, v in t[3]))
+    if t[0] in ("bin", "int") or (t[0] == "cast"):
+        return _atoms_key(t, body)
+    return shape(t, body, 0, KEY_DEPTH)
+
+
 def cut_shape(prog, o):
-    """Shape of the obligation's operands with user variables kept symbolic
-    (used as table key: stable under edits to unrelated upstream code)."""
+    """Table key of an obligation.  Built from the polynomial atoms of its operands, so it is
+    invariant under renaming, introducing/inlining `let`s, commuting or re-associating sums and
+    products and flipping comparisons, and is elided below KEY_DEPTH levels so that edits far
+    upstream of an operand do not change it; it changes when an operand involves a different
+    quantity."""
     body = o.body
-    s = sym_of(body, cut=True)
+    s = sym_of(body)
     t = body.blocks[o.block]["term"]
     nst = len(body.blocks[o.block]["stmts"])
     if o.kind.startswith("assert:"):
@@ -293,9 +323,11 @@ def cut_shape(prog, o):
         if m["kind"] in ("DivisionByZero", "RemainderByZero"):
             c = prog.simp(s.operand(t["cond"], o.block, nst), body)
             ops.append(c)
-        return " ; ".join(shape(x, body) for x in ops)
+        if m["kind"] == "Overflow" and m.get("op") in ("Add", "Mul"):
+            return " ; ".join(sorted(_atoms_key(x, body) for x in ops))
+        return " ; ".join(_atoms_key(x, body) for x in ops)
     if o.kind.startswith("call:"):
-        return ",".join(shape(prog.simp(a, body), body) for a in s.call_args(o.block))
+        return ",".join(_arg_key(prog.simp(a, body), body) for a in s.call_args(o.block))
     return o.shape
 
 
